@@ -105,6 +105,14 @@ vproc.COMMANDS["parse"] = cmd_parse
 vproc.COMMANDS["lock"] = cmd_lock
 
 
+# names that are not among the settings keys: free ones, option names of the
+# apps, and names the container class itself has (methods of dict, its own)
+UNKNOWN_NAMES = ["not_a_setting_or_option", "my_param", "plot_foo", "align",
+                 "x", "copy", "items", "update", "get", "keys", "values",
+                 "locked", "pop", "clear", "from_json_file",
+                 "update_existing_keys", "setdefault"]
+
+
 # ------------------------------------------------------------------ model
 def conv(tok):
     try:
@@ -601,7 +609,10 @@ class C18(Check):
                     g = sg.gen_group(rng, k, dflt[k])
                     content[k] = sg.user_value(dflt[k], g[1:], k)
                 if rng.random() < 0.3:
-                    content["not_a_setting_or_option"] = 1
+                    # a key that is neither a setting nor an option; some are
+                    # names the container has for other reasons (dict methods)
+                    content[rng.choice(UNKNOWN_NAMES)] = rng.choice(
+                        [1, "abc", False, [1, 2]])
                 ops.append({"op": "env_write_config", "path": path,
                             "content": content})
                 cfg_files[path] = dict(content)
@@ -616,8 +627,7 @@ class C18(Check):
                 g1 = sg.gen_group(rng, k1, dflt[k1])
                 g2 = sg.gen_group(rng, k2, dflt[k2])
                 ops.append({"op": "lock",
-                            "unknown": rng.choice(["my_param", "plot_foo",
-                                                   "align", "x"]),
+                            "unknown": rng.choice(UNKNOWN_NAMES),
                             "known": k1,
                             "kv": sg.user_value(dflt[k1], g1[1:], k1),
                             "known2": k2,
